@@ -231,13 +231,14 @@ def type_universe(ctx: Any) -> list[tuple]:
     import harness.c02_echo as H
 
     rng = ctx.rng
-    base = list(H.SCALARS) + list(H.DECIMALS) + [("enum", 0), ("enum", 1), ("data", 0), ("data", 1)]
+    base = list(H.SCALARS) + list(H.DECIMALS) + [("enum", k) for k in range(len(H.ENUMS))] + [("data", k) for k in range(len(H.DATAS))]
     plain = list(H.SCALARS)
     comp: list[tuple] = []
     core = [("int", True, 64), ("float", 64), ("float", 32), ("str",), ("bytes",), ("bool",), ("int", False, 8), ("ts", "us", False), ("ts", "s", True), ("date",), ("dur", "ms")]
     for s in core:
         comp += [("opt", s), ("list", s), ("set", s) if s[0] != "bytes" or True else s, ("map", ("str",), s), ("list", ("opt", s))]
     comp += [("opt", ("enum", 0)), ("opt", ("enum", 1)), ("opt", ("data", 0)), ("opt", ("data", 1)), ("opt", ("dec", 10, 2))]
+    always = [("opt", ("data", 2)), ("opt", ("data", 3)), ("opt", ("enum", 2)), ("opt", ("enum", 3))]  # enums whose values are sibling names
     comp += [("map", ("int", True, 64), ("str",)), ("map", ("bytes",), ("float", 64)), ("map", ("str",), ("opt", ("int", True, 64))), ("map", ("date",), ("bool",))]
     comp += [("list", ("list", ("int", True, 64))), ("list", ("list", ("list", ("str",)))), ("opt", ("list", ("opt", ("float", 32)))), ("opt", ("map", ("str",), ("int", True, 8))),
              ("opt", ("set", ("str",))), ("map", ("str",), ("list", ("int", True, 64))), ("set", ("opt", ("int", True, 64))), ("list", ("dec", 10, 2))]
@@ -252,7 +253,7 @@ def type_universe(ctx: Any) -> list[tuple]:
         comp = rng.sample(comp, min(len(comp), 46))
         outside = rng.sample(outside, 6)
     out = []
-    for t in base + comp + outside:
+    for t in base + always + comp + outside:
         if t not in out:
             out.append(t)
     return out
@@ -356,9 +357,11 @@ def run(ctx: Any) -> None:
                 ctx.violation("well-typed-value-rejected-" + shape(t), f"a value of the declared type is refused ({o.where}: {o.err})", repl)
             else:
                 if not (o.seen and H.exact_eq(v, o.seen[0])):
-                    ctx.violation("kwargs-differ-" + shape(t), "the implementation received a different value", repl)
+                    sfx = "dataclass-enum" if o.seen and H.enum_field_differs(v, o.seen[0]) else shape(t)
+                    ctx.violation("kwargs-differ-" + sfx, "the implementation received a different value", repl)
                 if not H.exact_eq(v, o.result):
-                    ctx.violation("echo-differs-" + shape(t), "the echoed value differs from the one passed", repl)
+                    sfx = "dataclass-enum" if H.enum_field_differs(v, o.result) else shape(t)
+                    ctx.violation("echo-differs-" + sfx, "the echoed value differs from the one passed", repl)
             return
         # not a value of the declared type (or not representable by it): rejected, or the same value arrives
         for got, what in ([(o.seen[0], "kwargs")] if o.seen else []) + ([(o.result, "result")] if o.ok else []):
@@ -373,7 +376,7 @@ def run(ctx: Any) -> None:
         sigs = []
         plans = []
         for t in batch:
-            well_vals = [H.gen_value(t, rng) for _ in range(4 if quick else 14)]
+            well_vals = H.fixed_wells(t) + [H.gen_value(t, rng) for _ in range(4 if quick else 14)]
             ill_vals = targeted_ill(t, rng) + rng.sample(H.ILL_POOL, 3 if quick else 20)
             default = H.gen_value(t, rng)
             sigs.append((t, False, None))
